@@ -45,6 +45,7 @@ type netParams struct {
 	PreMid       int         `json:"pre_mid,omitempty"`       // Pre: the earlier position of the branch (0 = pick a random ancestor)
 	Pre          string      `json:"pre,omitempty"`           // fetch: "shallow-fetch" = an earlier `fetch --depth 1` of an ancestor of the branch left shallow commits behind
 	ShallowLocal int         `json:"shallow_local,omitempty"` // push: this many non-tip commits of the pushed history lack their table locally (a shallow clone)
+	Peel         int         `json:"peel,omitempty"`          // merge: the first argument is spelled b0^ / b0^^ (a commit below the branch, not the branch)
 	Tags2        bool        `json:"tags2,omitempty"`         // a second tag zeta9 (sorting after rel1) that the receiver does not have or has at the same value
 	Shadow       bool        `json:"shadow,omitempty"`        // merge/pull: a second local branch a/<name> exists whose name ends with the merged branch's name
 	TagRel       string      `json:"tag_rel,omitempty"`       // relation forced on the tag: clobber = the receiver's tag sits on an ancestor of the sender's
@@ -490,7 +491,11 @@ func netArgs(w *netWorld, p *netParams) []string {
 		}
 		return append(args, "--no-progress")
 	case "merge":
-		args := []string{"merge", "b0", "other", "--no-progress", "--no-gui", "-n", "4"}
+		target := "b0"
+		if p.Peel > 0 {
+			target += strings.Repeat("^", p.Peel) // "the commit Peel steps below the branch": not the branch itself
+		}
+		args := []string{"merge", target, "other", "--no-progress", "--no-gui", "-n", "4"}
 		if p.FF != "" {
 			args = append(args, "--"+p.FF)
 		}
